@@ -33,6 +33,34 @@ type expander struct {
 	p       *packages.Package
 	on      map[*ast.FuncDecl]bool
 	changed bool
+	alias   map[types.Object]types.Object // parameter of a put-back helper -> the variable handed to it
+}
+
+// ExpandAlias is Expand together with a function that maps a parameter of a put-back helper to the caller's
+// variable that was passed for it (when the argument is a plain variable), so that a rule can ask "is this
+// the function's parameter `name`?" of an identifier inside the helper.
+func (c *Ctx) ExpandAlias(p *packages.Package, fd *ast.FuncDecl) (*ast.FuncDecl, func(types.Object) types.Object) {
+	id := func(o types.Object) types.Object { return o }
+	if fd == nil || fd.Body == nil || len(knownFuncs) == 0 {
+		return fd, id
+	}
+	e := &expander{c: c, p: p, on: map[*ast.FuncDecl]bool{fd: true}, alias: map[types.Object]types.Object{}}
+	body := e.block(fd.Body)
+	if !e.changed {
+		return fd, id
+	}
+	cp := *fd
+	cp.Body = body
+	return &cp, func(o types.Object) types.Object {
+		for i := 0; i < 8; i++ {
+			n, ok := e.alias[o]
+			if !ok {
+				break
+			}
+			o = n
+		}
+		return o
+	}
 }
 
 // helpersIn: the new same-package functions called in the expressions of n (not inside nested statements'
@@ -56,6 +84,21 @@ func (e *expander) helpersIn(n ast.Node) []*ast.FuncDecl {
 			if fn != nil && fn.Pkg() == e.p.Types && isNewFunc(FuncID(fn)) {
 				if d := e.c.Decl(fn); d != nil && d.Body != nil && !e.on[d] {
 					out = append(out, d)
+					if e.alias != nil && d.Type.Params != nil {
+						i := 0
+						for _, f := range d.Type.Params.List {
+							for _, nm := range f.Names {
+								if i < len(x.Args) {
+									if aid, ok := unparen(x.Args[i]).(*ast.Ident); ok {
+										if po, ao := e.p.TypesInfo.Defs[nm], e.p.TypesInfo.Uses[aid]; po != nil && ao != nil {
+											e.alias[po] = ao
+										}
+									}
+								}
+								i++
+							}
+						}
+					}
 				}
 			}
 			// a method value or function name handed over as an argument: once.Do(ctx.shutdown)
